@@ -31,11 +31,17 @@ def outcomeOf {D : Type} (env : Version → Attempt D) : List Version → Outcom
     | .fail c => .failed c
     | .fetched o p => .fetched o p
 
+/-- the fetched contract equals (as a set) the last delivered one -/
+def sameAsLast (last : Option Obs) (o : Obs) : Bool :=
+  match last with
+  | some l => sameContract o l
+  | none => false
+
 /-- One poll of the specification: ghost state = the last delivered contract. -/
 def specPoll {D : Type} (last : Option Obs) : Outcome D → Option Obs × List (Callback D)
   | .failed c => (last, [.reportError c])
   | .fetched o p =>
-    if (match last with | some l => sameContract o l | none => false) then (last, [])
+    if sameAsLast last o then (last, [])
     else match p with
       | none => (last, [.reportError .other])
       | some d => (some o, [.update d])
